@@ -315,6 +315,15 @@ def limit_specs():
     L.append(("unterminated_comment_sect2", "%option noyywrap\n%%\na ;\n    /* never closed\nb ;\n", []))
     L.append(("unterminated_codeblock_sect1", "%{\nint x;\n%%\na ;\n", []))
     L.append(("unterminated_top", "%top{\nint x;\n%%\na ;\n", []))
+    # names declared twice: refused with a file:line message, or accepted with a working scanner
+    main = "%%\nint main(void) { yylex(); return 0; }\n"
+    L.append(("sc_twice_x", "%option noyywrap\n%x A\n%x A\n%%\n<A>a ;\nb ;\n" + main, [], ("run", b"b", "")))
+    L.append(("sc_twice_same_line", "%option noyywrap\n%s A B A\n%%\n<A>a ;\n<B>b ;\nc ;\n" + main, [],
+              ("run", b"c", "")))
+    L.append(("sc_twice_mixed", "%option noyywrap\n%s A\n%x B\n%x A\n%%\n<A>a ;\n<B><<EOF>> return 0;\nc ;\n" + main,
+              [], ("run", b"c", "")))
+    L.append(("sc_twice_initial", "%option noyywrap\n%s INITIAL\n%%\na ;\n" + main, [], ("run", b"a", "")))
+    L.append(("def_twice", "%option noyywrap\nD [0-9]\nD [a-f]\n%%\n{D} ;\n" + main, [], ("run", b"1", "")))
     L.append(("empty", "", []))
     L.append(("only_marker", "%%", []))
     L.append(("nul_bytes", "%%\n\x00\x00 ;\n%%\n", []))
